@@ -193,7 +193,7 @@ class ProgGen:
         ch = self.ch
         k = ch.pick(4, lbl + ".kk")
         if k == 0:
-            self.a.push(ch.pick(3, lbl + ".c"))
+            self.a.push(ch.choose([0, 1, 2, 10], lbl + ".c") if not small else ch.pick(3, lbl + ".c"))
         elif k == 1:
             self.input_word(lbl)
             if small:
